@@ -27,7 +27,8 @@ func init() {
 			" (R11) the identity of a subroutine activation is an offset-derived instruction field (same rule as C01.R10)." +
 			" Round 5: (R12) group numbering restarts with every regexp literal." +
 			" Round 6: (R13) steering instructions cannot fail; (R14) the command's own names win over stored definitions; (R15) every field of a VM record that is read is also written somewhere; (R16) every process run gets its own environment." +
-			" Round 8: (R17) in the text entry point each command searches the whole text given, on a reader made for it, and nothing computed for one command reaches the next.",
+			" Round 8: (R17) in the text entry point each command searches the whole text given, on a reader made for it, and nothing computed for one command reaches the next. (R18) what the generator forgets between the copies of an unrolled loop body does not depend on the value a name was entered with (captures -1, subroutines their offset)." +
+			" Round 9: R3 also counts an append to a re-slice of a list of the program as a write; R17 also covers the loops over files (only a range index, the result list and the list of names are carried). (R19) no package-level variable is reached without synchronisation by compile- or run-time code (shared with C19: a memo that outlives a run answers for the next program).",
 		Assumptions: commonAssumptions,
 		Rules: []RuleFn{
 			{Name: "C13.R1", Run: func(c *Ctx) { ruleAdjustPure(c, "C13.R1") }},
@@ -45,6 +46,8 @@ func init() {
 			{Name: "C13.R15", Run: func(c *Ctx) { ruleRecordFieldsReadAreWritten(c, "C13.R15") }},
 			{Name: "C13.R16", Run: func(c *Ctx) { ruleProcessEnvFresh(c, "C13.R16") }},
 			{Name: "C13.R17", Run: func(c *Ctx) { ruleCommandsIndependent(c, "C13.R17") }},
+			{Name: "C13.R18", Run: func(c *Ctx) { ruleUnrolledBodiesForgetEveryDeclaration(c, "C13.R18") }},
+			{Name: "C13.R19", Run: func(c *Ctx) { ruleGlobals(c, "C13.R19", c.apiRoots(), "Compile/CompileFile/(*Vore).Run/RunFiles") }},
 			{Name: "C13.R3", Run: func(c *Ctx) { ruleProgramReadOnly(c, "C13.R3") }},
 			{Name: "C13.R4", Run: func(c *Ctx) { ruleCommandScope(c, "C13.R4") }},
 			{Name: "C13.R6", Run: func(c *Ctx) { ruleAttemptFresh(c, "C13.R6") }},
@@ -59,7 +62,7 @@ func init() {
 			" (R10) the identity of a subroutine activation is an offset-derived instruction field." +
 			" Round 5: (R11) the empty text matches with zero width; (R12) Reader.Read/ReadAt return nothing or exactly the bytes asked for; (R13) the generator does not reorder AST items; (R14) renumbering passes cover every program-counter field." +
 			" Round 6: (R15) the handlers of steering instructions (call, jump, branch, capture/subroutine/not-in markers) cannot reach BACKTRACK; (R16) a MatchLiteral carries the Value, Not and Caseless of one AST string node unchanged." +
-			" Round 8: (R17) with one byte left that is a newline (READ(1) = \"\\n\", every longer read = \"\") the line-end primitive reaches NEXT and not BACKTRACK; the same for a final \"\\r\\n\".",
+			" Round 8: (R17) with one byte left that is a newline (READ(1) = \"\\n\", every longer read = \"\") the line-end primitive reaches NEXT and not BACKTRACK; the same for a final \"\\r\\n\". Round 9: (R18) no package-level state is shared between runs without synchronisation (shared with C19/C13: verdicts remembered per pattern name and text answer for another program). (R19) as C14.R19.",
 		Assumptions: commonAssumptions,
 		Rules: []RuleFn{
 			{Name: "C01.R1", Run: func(c *Ctx) {
@@ -89,6 +92,8 @@ func init() {
 			{Name: "C01.R15", Run: func(c *Ctx) { ruleSteeringInstructionsCannotFail(c, "C01.R15") }},
 			{Name: "C01.R16", Run: func(c *Ctx) { ruleLiteralInstructionIsTheLiteral(c, "C01.R16") }},
 			{Name: "C01.R17", Run: func(c *Ctx) { ruleLineEndsBeforeLastNewline(c, "C01.R17") }},
+			{Name: "C01.R18", Run: func(c *Ctx) { ruleGlobals(c, "C01.R18", c.apiRoots(), "Compile/CompileFile/(*Vore).Run/RunFiles") }},
+			{Name: "C01.R19", Run: func(c *Ctx) { ruleLoopBoundsAsWritten(c, "C01.R19") }},
 			{Name: "C01.R3", Run: func(c *Ctx) { ruleScanDiscipline(c, "C01.R3"); ruleAttemptFresh(c, "C01.R3b") }},
 		},
 	})
@@ -123,7 +128,8 @@ func init() {
 			"Does NOT decide that Reader.Read returns the bytes at the offset (C07), column arithmetic for multi-byte input, nor the arithmetic itself." +
 			" Round 4: (R7) the number handed to MakeMatch is the scan's match counter + 1, the counter being identified from the loop bound." +
 			" Round 5: (R8) ds.NewRange keeps its arguments in their places." +
-			" Round 7: (R9) a search runs on a reader opened for that search.",
+			" Round 7: (R9) a search runs on a reader opened for that search." +
+			" Round 9: (R10) nothing but the result list travels from one command (or file) to the next (shared with C13).",
 		Assumptions: commonAssumptions,
 		Rules: []RuleFn{
 			{Name: "C03.R1", Run: func(c *Ctx) { ruleSingleWriter(c, "C03.R1") }},
@@ -135,6 +141,7 @@ func init() {
 			{Name: "C03.R7", Run: func(c *Ctx) { ruleMatchNumberProvenance(c, "C03.R7") }},
 			{Name: "C03.R8", Run: func(c *Ctx) { ruleRangeKeepsOrder(c, "C03.R8") }},
 			{Name: "C03.R9", Run: func(c *Ctx) { ruleReaderPerSearch(c, "C03.R9") }},
+			{Name: "C03.R10", Run: func(c *Ctx) { ruleCommandsIndependent(c, "C03.R10") }},
 		},
 	})
 	register(&Property{
@@ -145,7 +152,8 @@ func init() {
 			" (R11) with every status read fixed to the one set by `return`, no loop that runs process statements goes round again." +
 			" Round 5: (R12) captures are bound as strings for process code." +
 			" Round 6: (R13) with every status read fixed to NEXT the loop executor cannot return: a `loop` ends only by break or return." +
-			" Round 8: (R14) a ReplaceString built by the generator carries the Value of one AST string node unchanged; R10 now also requires the two bindings of matchNumber in the tables that replacers and transforms read.",
+			" Round 8: (R14) a ReplaceString built by the generator carries the Value of one AST string node unchanged; R10 now also requires the two bindings of matchNumber in the tables that replacers and transforms read." +
+			" Round 9: (R15) nothing at run time writes into the compiled program (shared with C13: a with-list resolved in place keeps the values of the first run).",
 		Assumptions: commonAssumptions,
 		Rules: []RuleFn{
 			{Name: "C05.R1", Run: func(c *Ctx) {
@@ -164,6 +172,7 @@ func init() {
 			{Name: "C05.R12", Run: func(c *Ctx) { ruleCapturesAreStrings(c, "C05.R12") }},
 			{Name: "C05.R13", Run: func(c *Ctx) { ruleProcessLoopEndsOnlyOnRequest(c, "C05.R13") }},
 			{Name: "C05.R14", Run: func(c *Ctx) { ruleReplaceStringIsTheLiteral(c, "C05.R14") }},
+			{Name: "C05.R15", Run: func(c *Ctx) { ruleProgramReadOnly(c, "C05.R15") }},
 			{Name: "C05.R5", Run: func(c *Ctx) { rulePlumbing(c, "C05.R5") }},
 			{Name: "C05.R6", Run: func(c *Ctx) { ruleItemKinds(c, "C05.R6") }},
 		},
@@ -236,7 +245,7 @@ func init() {
 		Explanation: "Decides the structural part of `replace writes the exact splice and each mode touches only its file`: (R1) the mode table of searchReplace - NEW opens only <file>+suffix for writing, OVERWRITE loads the original into memory before the truncating open of the file itself, NOTHING writes to memory; Run uses NOTHING and RunFiles forces NOTHING under -filenames; (R2) who may modify the file system: in the library only files.WriterFromFile opens for writing (called only by searchReplace) and RunFiles renames under processFilenames; nothing reachable from searchFind can write; (R3) the writer is opened with create|truncate|write; (R4) cursor pairing in the splice loop: the gap and the replacement are written at consecutive positions, the cursors advance by gap+len(replacement) and gap+len(match) on every path around the loop, the tail is copied, the writer is closed; (R5) every command searches a file through a reader opened for it in the same loop iteration, so a later command reads what an earlier one wrote. " +
 			"Does NOT decide the arithmetic itself (that gaps and values tile the input), short reads, or MemoryStream/OS write semantics." +
 			" Round 4: (R7) every Read([]byte) implementation in package files delivers len(p) bytes when it returns no error." +
-			" Round 6: (R8) the match record is built from the counters and the consumed text (shared with C03).",
+			" Round 6: (R8) the match record is built from the counters and the consumed text (shared with C03). Round 9: (R9) Writer.WriteAt hands the data parameter itself to the underlying Write (a text made out of the data has another length than the write cursor assumes).",
 		Assumptions: commonAssumptions,
 		Rules: []RuleFn{
 			{Name: "C06.R1", Run: func(c *Ctx) { ruleModeTable(c, "C06.R1") }},
@@ -246,6 +255,7 @@ func init() {
 			{Name: "C06.R6", Run: func(c *Ctx) { ruleReaderOffsetsAreFileOffsets(c, "C06.R6") }},
 			{Name: "C06.R7", Run: func(c *Ctx) { ruleFullReads(c, "C06.R7") }},
 			{Name: "C06.R8", Run: func(c *Ctx) { ruleRecordConstruction(c, "C06.R8") }},
+			{Name: "C06.R9", Run: func(c *Ctx) { ruleWriterWritesWhatItIsHanded(c, "C06.R9") }},
 		},
 	})
 	register(&Property{
@@ -253,7 +263,8 @@ func init() {
 		Explanation: "The equivalence of buffered file reading with in-memory reading over all sizes and seek/read histories is a property of the window arithmetic in BufferedFile.Seek/Read and is NOT decided. Decided: (R1) no read in package files turns end of input into a panic (io.EOF excluded, or at least one byte requested and available); (R2) each Reader constructor sets size to the length of what its contents deliver; (R3) Reader.Read is called only after a Seek on the same reader (axiom A5) and BufferedFile's methods never use the OS file cursor, only positioned ReadAt; (R4) every search gets a reader opened for it in the same loop iteration (no reader, with its buffered window and size, is kept across commands)." +
 			" Round 4: (R9) every Read([]byte) implementation in package files delivers len(p) bytes when it returns no error." +
 			" Round 5: (R10) Reader.Read/ReadAt return nothing or exactly the bytes asked for." +
-			" Round 6: (R11) no byte is converted to a string as a code point in files/engine; (R12) no address of a per-loop variable is kept.",
+			" Round 6: (R11) no byte is converted to a string as a code point in files/engine; (R12) no address of a per-loop variable is kept." +
+			" Round 9: (R13) commands and files are independent of each other in both entry points (shared with C13): Run and RunFiles give every command the text as it is.",
 		Assumptions: commonAssumptions,
 		Rules: []RuleFn{
 			{Name: "C07.R1", Run: func(c *Ctx) { ruleEOFNotAnError(c, "C07.R1") }},
@@ -270,6 +281,7 @@ func init() {
 			{Name: "C07.R12", Run: func(c *Ctx) {
 				ruleLoopVarAddressNotKept(c, "C07.R12", []string{"ast", "bytecode", "engine", "libvore", "files"})
 			}},
+			{Name: "C07.R13", Run: func(c *Ctx) { ruleCommandsIndependent(c, "C07.R13") }},
 		},
 	})
 	register(&Property{
@@ -279,7 +291,8 @@ func init() {
 			" Round 4: (R15) variable indexes into fixed-size tables are bounded by the table length. (R16) the token kinds the list parser admits, the classes parse_character_class makes of them and GetMaxSize agree: no admitted class has a negative size." +
 			" Round 5: (R17) no allocation is sized by a number written in the program." +
 			" Round 6: (R18) the handlers of steering instructions cannot fail; (R19) a listed directory entry is used as a file only behind an IsDir test; (R20) every replace mode has a writer (CONFIRM: known finding); (R21) no method call on a result that may be a nil interface without a nil test." +
-			" Round 8: (R22) relocation builds new instructions and leaves its receiver alone; (R23) the window of a match is applied where the scan counts matches. (R24) what is allocated because more is needed than the capacity holds is sized by what is needed.",
+			" Round 8: (R22) relocation builds new instructions and leaves its receiver alone; (R23) the window of a match is applied where the scan counts matches. (R24) what is allocated because more is needed than the capacity holds is sized by what is needed." +
+			" Round 9: (R25) the names the semantic check types are bound with that type by the engine in every environment (shared with C12). (R26) a read in front of the current position stands behind a test of the position or a CONSUME.",
 		Assumptions: commonAssumptions,
 		Rules: []RuleFn{
 			{Name: "C09.R1", Run: func(c *Ctx) {
@@ -357,6 +370,8 @@ func init() {
 			{Name: "C09.R22", Run: func(c *Ctx) { ruleAdjustPure(c, "C09.R22") }},
 			{Name: "C09.R23", Run: func(c *Ctx) { ruleWindow(c, "C09.R23") }},
 			{Name: "C09.R24", Run: func(c *Ctx) { ruleGrowthCoversNeed(c, "C09.R24") }},
+			{Name: "C09.R25", Run: func(c *Ctx) { ruleCheckerAlwaysRun(c, "C09.R25") }},
+			{Name: "C09.R26", Run: func(c *Ctx) { ruleLookBehindGuarded(c, "C09.R26") }},
 		},
 	})
 	register(&Property{
@@ -430,7 +445,8 @@ func init() {
 		Explanation: "Decides that the static checker accepts exactly the documented operand-type combinations: (R1) the full decision table of checkBinaryExpr/checkUnaryExpr over {string,number,bool,error}^2 x 13 operators (208+12 cells, extracted by partial evaluation) equals the documented table in both directions, including error propagation from either operand; " +
 			"(R2) every accepted cell has a non-panicking evaluator leaf of the promised result type; (R3) statement rules: if needs bool, return by context, break/continue only in loop, loop restores the inLoop flag; (R4) both generators run the checker on every statement before succeeding; (R5) statement/expression dispatch completeness; (R6) error discipline of the checker: the verdict of a check call is compared with PTERROR or returned before it is handed to the next check call; (R7) every body is checked against a type environment created for that body. " +
 			"Does NOT decide flow-sensitive typing (excluded by the property)." +
-			" Round 8: (R9) no function of package ast returns an operand taken out of an expression node in place of a node.",
+			" Round 8: (R9) no function of package ast returns an operand taken out of an expression node in place of a node." +
+			" Round 9: (R10) no unguarded type assertion on a process value in the evaluator (shared with C09: accepted code must not panic).",
 		Assumptions: append([]string{"the documentation table is the specification"}, commonAssumptions...),
 		Rules: []RuleFn{
 			{Name: "C12.R1", Run: func(c *Ctx) { t := ruleCheckerTable(c, "C12.R1"); ruleCheckerSubsetEvaluator(c, "C12.R2", t) }},
@@ -440,6 +456,7 @@ func init() {
 			{Name: "C12.R7", Run: func(c *Ctx) { ruleCheckerEnvFresh(c, "C12.R7") }},
 			{Name: "C12.R8", Run: func(c *Ctx) { ruleBuiltinsWin(c, "C12.R8") }},
 			{Name: "C12.R9", Run: func(c *Ctx) { ruleParserKeepsOperators(c, "C12.R9") }},
+			{Name: "C12.R10", Run: func(c *Ctx) { ruleTypeAssertions(c, "C12.R10", []string{"engine"}, 0) }},
 			{Name: "C12.R5", Run: func(c *Ctx) {
 				ruleTypeSwitchComplete(c, "C12.R5", []string{"bytecode", "engine"}, func(n *types.Named) bool {
 					return n.Obj().Name() == "AstProcessStatement" || n.Obj().Name() == "AstProcessExpression"
@@ -453,7 +470,7 @@ func init() {
 			" Round 4: (R6) the loop-stack protocol (same rule as C01.R5); (R7) no byte of a regexp literal is converted to a string as a code point; (R8) the scan discipline (same rule as C01.R3)." +
 			" Round 5: (R9) group numbering restarts per literal and every capturing group takes a number; (R10) the empty text matches with zero width; (R11) renumbering passes cover every program-counter field." +
 			" Round 6: (R12) checkpoints are isolated snapshots; (R13) every attempt starts from a fresh state; (R14) alternatives are tried in written order; (R15) the compiled program is read-only at run time; (R16) the copies of an unrolled loop body may each declare the body's captures; (R17) an unbound back-reference fails." +
-			" Round 8: (R18) a line ends in front of the last newline of the input (shared with C01).",
+			" Round 8: (R18) a line ends in front of the last newline of the input (shared with C01). Round 9: (R19) the function that builds a StartLoop reads the loop node it was handed (a node that a call returned in its place is UNDECIDED: its equivalence is an arithmetic claim).",
 		Assumptions: commonAssumptions,
 		Rules: []RuleFn{
 			{Name: "C14.R1", Run: func(c *Ctx) { ruleRegexQuantifiers(c, "C14.R1") }},
@@ -474,6 +491,7 @@ func init() {
 			{Name: "C14.R16", Run: func(c *Ctx) { ruleUnrolledBodiesMayDeclare(c, "C14.R16") }},
 			{Name: "C14.R17", Run: func(c *Ctx) { ruleUnboundReferenceFails(c, "C14.R17") }},
 			{Name: "C14.R18", Run: func(c *Ctx) { ruleLineEndsBeforeLastNewline(c, "C14.R18") }},
+			{Name: "C14.R19", Run: func(c *Ctx) { ruleLoopBoundsAsWritten(c, "C14.R19") }},
 		},
 	})
 	register(&Property{
@@ -483,7 +501,8 @@ func init() {
 			" Round 4: (R6) with the lexer state fixed to a comment state only arms reached because of the state (or end-of-input arms) stay reachable." +
 			" Round 5: (R7) a newline ends a line comment in each of its states; (R8) the first character of the block comment's end marker restarts the recognition from every recognition state (state and character fixed)." +
 			" Round 6: (R9) nothing Compile writes at package level survives into the next compilation unseen; (R10) the lexer's look-ahead is a Peek of a small constant and never depends on what is buffered; (R11) the command parser answers the EOF token without an error." +
-			" Round 8: (R12) in a string state, on the string's own quote, the lexer leaves the literal without looking at what follows. (R13) the token list is not written after the lexer (shared with C08).",
+			" Round 8: (R12) in a string state, on the string's own quote, the lexer leaves the literal without looking at what follows. (R13) the token list is not written after the lexer (shared with C08)." +
+			" Round 9: (R14) read() hands out exactly the rune of one ReadRune (shared with C16); (R15) the kind of a finished token is never overwritten. (R16) a function that stands in for unicode.IsSpace in the scanning loop answers as the library does for U+0000..U+3000.",
 		Assumptions: commonAssumptions,
 		Rules: []RuleFn{
 			{Name: "C15.R1", Run: func(c *Ctx) {
@@ -504,6 +523,9 @@ func init() {
 			{Name: "C15.R11", Run: func(c *Ctx) { ruleEOFIsNotACommandError(c, "C15.R11") }},
 			{Name: "C15.R12", Run: func(c *Ctx) { ruleQuoteEndsString(c, "C15.R12") }},
 			{Name: "C15.R13", Run: func(c *Ctx) { ruleTokenListReadOnly(c, "C15.R13") }},
+			{Name: "C15.R14", Run: func(c *Ctx) { ruleReadVerbatim(c, "C15.R14") }},
+			{Name: "C15.R15", Run: func(c *Ctx) { ruleTokenKindDecidedOnce(c, "C15.R15") }},
+			{Name: "C15.R16", Run: func(c *Ctx) { ruleBlankTestIsIsSpace(c, "C15.R16") }},
 		},
 	})
 	register(&Property{
@@ -512,7 +534,8 @@ func init() {
 			"Does NOT decide the state machine as a whole (that every byte string round-trips), only these necessary conditions." +
 			" Round 4: (R7) with the lexer state fixed to a string state only arms reached because of the state (or end-of-input arms) stay reachable; (R8) the builders of a literal's node read no package-level variable that Compile writes." +
 			" Round 6: (R9) as C15.R9; (R10) as C15.R10; (R11) a MatchLiteral carries one AST literal unchanged." +
-			" Round 8: (R12) nothing in package ast trims or replaces inside the text of a token; (R13) as C15.R12.",
+			" Round 8: (R12) nothing in package ast trims or replaces inside the text of a token; (R13) as C15.R12." +
+			" Round 9: (R14) a store into Token.TokenType goes to a token made in the same function (or by the caller that hands it in), never to a finished one.",
 		Assumptions: append([]string{"bufio.Reader.UnreadRune supports a single level of push-back (documented)"}, commonAssumptions...),
 		Rules: []RuleFn{
 			{Name: "C16.R1", Run: func(c *Ctx) { ruleUnreadDepth(c, "C16.R1") }},
@@ -527,13 +550,14 @@ func init() {
 			{Name: "C16.R11", Run: func(c *Ctx) { ruleLiteralInstructionIsTheLiteral(c, "C16.R11") }},
 			{Name: "C16.R12", Run: func(c *Ctx) { ruleTokenTextNotCut(c, "C16.R12") }},
 			{Name: "C16.R13", Run: func(c *Ctx) { ruleQuoteEndsString(c, "C16.R13") }},
+			{Name: "C16.R14", Run: func(c *Ctx) { ruleTokenKindDecidedOnce(c, "C16.R14") }},
 		},
 	})
 	register(&Property{
 		ID: "C17",
 		Explanation: "Decides structural conditions of the JSON renderings: (R1) no type assertion in the rendering code is impossible or unguarded (a value whose every reaching definition has another dynamic type panics on every call); (R2) Match.MarshalJSON/Range.MarshalJSON emit exactly the documented keys, each from the like-named field, `replacement` control-dependent on Replacement.HasValue() only; (R3) every static type flowing into json.Marshal is JSON-safe (type closure through MakeInterface producers) and every MarshalJSON returns bytes produced by encoding/json; (R4) Json and FormattedJson marshal the receiver itself; (R5) what they return is the encoder's bytes converted to a string (through helpers, possibly trimmed) and nothing else - any other function applied to encoded JSON is reported. The JSON object may be a map or a struct with json tags. " +
 			"Does NOT decide encoding/json itself nor round-trip equality of values." +
-			" Round 6: (R6) nothing reachable from the renderings sorts a list of matches.",
+			" Round 6: (R6) nothing reachable from the renderings sorts a list of matches. Round 9: (R7) nothing reachable from the renderings deletes from, or stores into, a map it did not make (a value receiver shares its maps with the match).",
 		Assumptions: append([]string{"encoding/json produces valid JSON for JSON-safe Go values and escapes arbitrary text"}, commonAssumptions...),
 		Rules: []RuleFn{
 			{Name: "C17.R1", Run: func(c *Ctx) { ruleTypeAssertions(c, "C17.R1", []string{"engine", "ds"}, 0) }},
@@ -542,6 +566,7 @@ func init() {
 			{Name: "C17.R4", Run: func(c *Ctx) { ruleJSONRenderings(c, "C17.R4") }},
 			{Name: "C17.R5", Run: func(c *Ctx) { ruleJSONTextUntouched(c, "C17.R5") }},
 			{Name: "C17.R6", Run: func(c *Ctx) { ruleRenderingKeepsOrder(c, "C17.R6") }},
+			{Name: "C17.R7", Run: func(c *Ctx) { ruleRenderingReadOnly(c, "C17.R7") }},
 		},
 	})
 	register(&Property{
@@ -550,7 +575,8 @@ func init() {
 			"Does NOT decide the process-level behaviour of the built binary (exit status, bytes on stdout)." +
 			" Round 4: (R9) the searched file list never contains a directory (same rule as C20.R1)." +
 			" Round 5: (R10) no computed text is used as a format string; (R11) no output file is opened before the program compiled." +
-			" Round 8: (R12) Compile never returns (nil, nil). (R13) a growing buffer covers the request that made it grow (shared with C09).",
+			" Round 8: (R12) Compile never returns (nil, nil). (R13) a growing buffer covers the request that made it grow (shared with C09)." +
+			" Round 9: (R14) the splice copies gaps, replacements and the tail whatever the number of matches (shared with C06). (R15) every type assertion on a repository interface in libvore, main and engine asks for a type that is actually converted to it.",
 		Assumptions: append([]string{"flag.PrintDefaults, log.Fatal and the builtin println write to standard error"}, commonAssumptions...),
 		Rules: []RuleFn{
 			{Name: "C18.R1", Run: func(c *Ctx) { ruleCLIOpenForWriting(c, "C18.R1") }},
@@ -566,6 +592,8 @@ func init() {
 			{Name: "C18.R11", Run: func(c *Ctx) { ruleNoFileBeforeCompile(c, "C18.R11") }},
 			{Name: "C18.R12", Run: func(c *Ctx) { ruleCompileNeverNilNil(c, "C18.R12") }},
 			{Name: "C18.R13", Run: func(c *Ctx) { ruleGrowthCoversNeed(c, "C18.R13") }},
+			{Name: "C18.R14", Run: func(c *Ctx) { ruleSpliceLoop(c, "C18.R14") }},
+			{Name: "C18.R15", Run: func(c *Ctx) { ruleAssertionsCanSucceed(c, "C18.R15", []string{"libvore", "main", "engine"}) }},
 		},
 	})
 	register(&Property{
@@ -575,7 +603,8 @@ func init() {
 			"shared compiled program (bytecode/ast objects, *Vore); (R4) no go statements, unsafe, cgo, and every library call goes to an allow-listed goroutine-safe package. " +
 			"Under R1-R4 two calls share only read-only memory. Does NOT decide determinism of results beyond that (random loop ids are unobservable by design)." +
 			" Round 4: (R5) every mutex Lock is released on every path out of its function; (R6) what Compile writes at package level is re-initialised before it is used (same rule as C13.R5)." +
-			" Round 6: (R7) the parser lock is not held while anything is read from the source; (R8) nothing of the repository is called between a Lock and a non-deferred Unlock; (R9) no write into a slice handed in by a caller of the library.",
+			" Round 6: (R7) the parser lock is not held while anything is read from the source; (R8) nothing of the repository is called between a Lock and a non-deferred Unlock; (R9) no write into a slice handed in by a caller of the library." +
+			" Round 9: (R10) snapshots, matches and live states share no mutable table (shared with C02: a pool of tables that hands one out twice).",
 		Assumptions: append([]string{"standard-library packages on the allow-list are goroutine-safe as documented"}, commonAssumptions...),
 		Rules: []RuleFn{
 			{Name: "C19.R1", Run: func(c *Ctx) { ruleGlobals(c, "C19.R1", c.apiRoots(), "Compile/CompileFile/(*Vore).Run/RunFiles") }},
@@ -588,6 +617,7 @@ func init() {
 				ruleNoPanicUnderPlainLock(c, "C19.R8", []string{"ast", "bytecode", "engine", "libvore", "files"})
 			}},
 			{Name: "C19.R9", Run: func(c *Ctx) { ruleNoWriteIntoCallersSlice(c, "C19.R9") }},
+			{Name: "C19.R10", Run: func(c *Ctx) { ruleSnapshotIsolation(c, "C19.R10") }},
 			{Name: "C19.R2", Run: func(c *Ctx) { ruleProgramReadOnly(c, "C19.R2") }},
 			{Name: "C19.R4", Run: func(c *Ctx) { ruleLibraryCalls(c, "C19.R4") }},
 		},
